@@ -631,7 +631,11 @@ loop:
 		// wait for an uplink message, the end of the association, or the idle limit
 		fdsP := []unix.PollFd{{Fd: int32(r.fd), Events: unix.POLLIN}}
 		n, perr := unix.Poll(fdsP, 100)
-		if perr != nil && perr != unix.EINTR {
+		if perr == unix.EINTR {
+			// interrupted (the Go runtime preempts with signals): n is -1 here and nothing is known to be readable;
+			// falling through to the blocking receive would wait for ever when the emulator stays silent
+			n = 0
+		} else if perr != nil {
 			break
 		}
 		if n == 0 {
